@@ -494,10 +494,10 @@ def restrict_waker_calls(out: Path, wd: Path) -> int:
     return len(restr) if rc == 0 else 0
 
 
-def run_harness(meta, spec: H, profile: str, workdir: Path, tier: str):
+def run_harness(meta, spec: H, profile: str, workdir: Path, tier: str, noslice: bool = False):
     """goto-cc / goto-instrument / cbmc for one harness, as Kani 0.68 does."""
     name = meta["pretty_name"].split("::")[-1]
-    wd = workdir / f"{name}.{profile}"
+    wd = workdir / (f"{name}.{profile}" + (".full" if noslice else ""))
     wd.mkdir(parents=True, exist_ok=True)
     out = wd / "h.out"
     mem = spec.mem_gb or (8 if tier == "quick" else 20)
@@ -544,11 +544,14 @@ def run_harness(meta, spec: H, profile: str, workdir: Path, tier: str):
     # back from an Arc / Vec / coroutine is symbolic and all match arms are explored.
     fs = os.environ.get("VERIF_FIELD_SENS", "1024")
     cmd += ["--max-field-sensitivity-array-size", fs]
-    cmd += spec.extra_cbmc + ["--slice-formula", str(out), "--verbosity", "8", "--json-ui"]
+    # `--slice-formula` drops the nondet choices outside the cone of influence from the
+    # counterexample trace; the replay run (noslice) keeps them all
+    cmd += spec.extra_cbmc + ([] if noslice else ["--slice-formula"]) + [str(out), "--verbosity", "8", "--json-ui"]
     jpath = wd / "cbmc.json"
     rc, secs, rss, to = run_proc(cmd, tmo, mem, stdout_path=jpath)
     parsed = parse_cbmc_json(jpath)
     r["cbmc_cmd"] = " ".join(cmd[:-4] + ["<goto>", "--json-ui"])
+    r["_rerun"] = (meta, spec, profile)
     r["stats"] = parsed["stats"]
     r["stats"]["peak_rss_mb"] = rss // 1024
     r["stats"]["cbmc_wall_s"] = round(secs, 2)
@@ -739,7 +742,11 @@ def concrete_playback(prop, kind, profile, harness, pretty, sc: Scratch, builds,
             panicked = re.findall(r"panicked at [^\n]*\n([^\n]*)", out)
             if ran and ran.group(1) == "FAILED":
                 msg = panicked[0].strip() if panicked else "test failed"
-                results.append(dict(test=tname, mode=mode, failed=True, message=msg))
+                if "det vals" in msg or "concrete_playback" in msg and "Expected" in msg:
+                    # the playback machinery itself complained (value sequence mismatch)
+                    results.append(dict(test=tname, mode=mode, failed=None, message="playback value mismatch: " + msg))
+                else:
+                    results.append(dict(test=tname, mode=mode, failed=True, message=msg))
             elif ran and int(ran.group(2)) >= 1:
                 results.append(dict(test=tname, mode=mode, failed=False, message="test passed natively"))
             else:
@@ -808,7 +815,7 @@ def run_property(pid: str, tier: str, jobs: int, only: str | None, keep: bool, r
                     log(tail[-3000:])
                 break
             builds[(kind, profile)] = dict(cwd=cwd, pkg_args=pkg_args, module_of=spec.get("module_of", lambda h: spec.get("module", "")),
-                                           native_shims=spec.get("native_shims", []))
+                                           native_shims=spec.get("native_shims", ["tokio", "tracing", "tracing-attributes", "parking_lot"] if kind == "mux" else []))
             for h in hl:
                 if h.name not in metas:
                     results.append(dict(name=h.name, profile=profile, verdict="ERROR", reason="harness not found in kani metadata", wall_s=0))
@@ -860,6 +867,17 @@ def run_property(pid: str, tier: str, jobs: int, only: str | None, keep: bool, r
             rp = None
             if replay:
                 log(f"[{pid}] replaying {r['name']} natively …")
+                # full counterexample (no formula slicing) for the playback values
+                try:
+                    m_, s_, p_ = r["_rerun"]
+                    full = run_harness(m_, s_, p_, sc.root / "work", tier, noslice=True)
+                    classify(full, s_)
+                    fv = {v["desc"]: v for v in full.get("violations", [])}
+                    for v in new_viol:
+                        if v["desc"] in fv and fv[v["desc"]].get("trace_vals"):
+                            v["trace_vals"] = fv[v["desc"]]["trace_vals"]
+                except Exception as e:  # noqa
+                    log(f"[{pid}] full-trace re-run failed: {e!r}")
                 try:
                     rp = concrete_playback(pid, kind, r["profile"], r["name"], r.get("pretty", r["name"]), sc, builds, seed, new_viol)
                 except Exception as e:  # noqa
